@@ -104,7 +104,7 @@ CLAIMED["C13"] = dict(
          "constructors, splits every result with an independent URI splitter and searches the encoded requests for the "
          "secrets; TLC validates each event against Trace_Uri.",
     note="Strings are opaque to TLC (component equality only); targets http::Uri rejects are outside the domain.",
-    technique="TLA+ function model over URI records (TLC) + spec-enumerated shapes replayed + TLC trace validation",
+    technique="TLA+ function model over URI records (TLC; unbounded by TLAPS proof; design mutants refuted) + spec-enumerated shapes replayed + TLC trace validation",
     ref="DESIGN.md section 6 C13")
 CLAIMED["C14"] = dict(
     text="As C13 for Transport(target): the URL the clients contact is observed through the guarded hook "
@@ -112,7 +112,7 @@ CLAIMED["C14"] = dict(
          "other components unchanged. The pinned ipps default of 443 is a listed known finding admitted only for its "
          "input class.",
     note="Hook ancwrd1_ipp_rs_verif exposes the private function the clients call; known finding D8 in known_findings.json.",
-    technique="TLA+ function model over URI records (TLC) + guarded hook observation + TLC trace validation",
+    technique="TLA+ function model over URI records (TLC; unbounded by TLAPS proof; design mutants refuted) + guarded hook observation + TLC trace validation",
     ref="DESIGN.md section 6 C14")
 
 CLAIMED["C19"] = dict(
@@ -148,7 +148,7 @@ CLAIMED["C17"] = dict(
          "rotated) and runs the status gate over all 65536 codes; TLC validates each answer against IppReady.Allowed.",
     note="Where the property is silent (state absent/other/wrong syntax, non-keyword reasons, 0x0003-0x00ff) either answer "
          "is a step. State and reasons are those of the first printer-attributes group.",
-    technique="TLA+ model checking operational vs declarative decision (TLC) + replay + TLC trace validation",
+    technique="TLA+ model checking operational vs declarative decision (TLC; unbounded by TLAPS proof; design mutants refuted) + replay + TLC trace validation",
     ref="DESIGN.md section 6 C17")
 CLAIMED["C20"] = dict(
     text="The messages enumerated for C01 (TLC, MC_Wire) are serialised with serde_json and deserialised - whole message, "
@@ -183,7 +183,9 @@ CLAIMED["C18"] = dict(
          "ipputil binary built from /repo is run as a child process against the loopback server for each (a seeded "
          "stride in the quick tier) and TLC validates every request it sent (IppOps.Build of the arguments, options "
          "typed by their text, document octets intact, nothing submitted to a stopped/blocked printer) and its exit status.",
-    note="Responses come from the library's encoder (judged by C03); one binary run per session; quick tier samples ~1500 of ~14k sessions.",
+    note="Responses come from the library's encoder (judged by C03); one binary run per session; quick tier samples ~1500 of ~14k sessions. "
+         "The same run also validates two specification extensions (other ipputil commands; the six example programs incl. the multi-document "
+         "job protocol); their rejections are printed as SPEC-EXTENSION-REJECTED and never counted against C18.",
     technique="TLA+ model checking of the CLI session (TLC) + real process runs + TLC trace validation",
     ref="DESIGN.md section 6 C18")
 
